@@ -20,8 +20,9 @@ RULE = ('Hypothesis: sequences of length 0..12 given as list / tuple / '
         '2-tuples.  Distinct = hash of the case.')
 ASSUMPTIONS = [
     'sequence-key is only defined for 2-tuple elements; letters only for '
-    'index < 26; sort keys are unique so that the order is fully determined '
-    '(stability and ties are C13)',
+    'index < 26; sort keys are unique, or tie in which case a sort keeps '
+    'the input order of the ties and reverse mirrors the sorted order (the '
+    'other comparison functions and key kinds are C13)',
     'batch window arithmetic is C11; here start/size with orphan=0 only',
 ]
 
@@ -159,6 +160,10 @@ def elements(case):
     out = []
     for i, x in enumerate(xs):
         k = ks[i % len(ks)] * 100 + i if ks else i
+        if case.get('ties') and elk in ('obj', 'map', 'pair-obj'):
+            # equal sort keys: a sort keeps their input order, reverse
+            # mirrors the sorted order
+            k = ks[i % len(ks)] % 3
         if elk == 'obj':
             out.append(El(i, x, k))
         elif elk == 'map':
@@ -373,6 +378,7 @@ def strategy():
         xs=st.lists(st.integers(0, 2), min_size=0, max_size=12),
         ks=st.permutations(list(range(12))),
         raise_at=st.one_of(st.none(), st.none(), st.integers(0, 5)),
+        ties=st.booleans(),
         opts=opts)).map(fix)
 
 
